@@ -1,5 +1,6 @@
 import Oq3.Driver.Types
 import Oq3.Driver.Symbols
+import Oq3.Driver.Lex
 
 open Oq3.Driver
 
@@ -10,6 +11,10 @@ partial def loop (h : IO.FS.Stream) (out : IO.FS.Stream) (f : String → String)
   out.putStrLn (f l)
   loop h out f
 
+def readUClass (path : String) : IO UClassTable := do
+  let txt ← IO.FS.readFile path
+  return (txt.splitOn "\n").filterMap parseUClassLine
+
 def main (args : List String) : IO UInt32 := do
   let stdin ← IO.getStdin
   let stdout ← IO.getStdout
@@ -17,4 +22,7 @@ def main (args : List String) : IO UInt32 := do
   | ["types"] => loop stdin stdout typesLine; return 0
   | ["types-guards"] => loop stdin stdout typesGuards; return 0
   | ["symtab"] => loop stdin stdout symtabLine; return 0
+  | ["lex", uc] => do
+      let tab ← readUClass uc
+      loop stdin stdout (lexLine tab); return 0
   | _ => IO.eprintln "usage: driver <mode>"; return 2
